@@ -65,6 +65,13 @@ func applyNetEvent(n *model.Net, e netEvent) []string {
 		lines = n.Mode(e.U, e.Ch, e.Changes)
 	case "umode":
 		lines = []string{":" + n.MeNick() + " MODE " + n.MeNick() + " :" + e.S}
+	case "toggle":
+		// (the runner of C13 switches tracking off before these lines and on again after them)
+		if e.S != "" {
+			lines = n.Nick(n.Me, e.S, e.B1)
+		} else {
+			lines = []string{":" + n.Server + " NOTICE " + n.MeNick() + " :nothing happens"}
+		}
 	case "reconnect":
 		n.ClientReconnected()
 		lines = []string{"\x00RECONNECT"} // not a line: the runner closes the connection and connects again
@@ -93,10 +100,31 @@ func genNetEvent(t *rapid.T, n *model.Net) (netEvent, bool) {
 		sort.Strings(cs)
 		return cs
 	}
-	kinds := []string{"join", "join", "join", "clientjoin", "clientjoin", "part", "quit", "kick", "nick", "topic", "mode", "mode", "mode", "clientpart", "adduser", "umode", "clientnick", "join", "mode", "part", "reconnect"}
+	kinds := []string{"join", "join", "join", "clientjoin", "clientjoin", "part", "quit", "kick", "nick", "topic", "mode", "mode", "mode", "clientpart", "adduser", "umode", "clientnick", "join", "mode", "part", "reconnect", "toggle"}
 	switch k := rapid.SampledFrom(kinds).Draw(t, "event"); k {
 	case "reconnect":
 		return netEvent{Kind: "reconnect"}, true
+	case "toggle":
+		// the application switches tracking off and on again on the live client - allowed while it is on
+		// no channel - and the server may rename the client in between
+		for _, ch := range c13Chans {
+			if n.ClientOn(ch) {
+				return netEvent{}, false
+			}
+		}
+		e := netEvent{Kind: "toggle", U: n.Me}
+		if rapid.Bool().Draw(t, "renamed_while_off") {
+			var free []string
+			for _, nk := range []string{"me", "Me", "me2", "me_"} {
+				if !n.NickInUse(nk) {
+					free = append(free, nk)
+				}
+			}
+			if len(free) > 0 {
+				e.S = rapid.SampledFrom(free).Draw(t, "newnick")
+			}
+		}
+		return e, true
 	case "adduser":
 		if len(n.Users) >= 7 {
 			return netEvent{}, false
@@ -424,6 +452,24 @@ func runC13(sc *c13Scenario) *Violation {
 			st = tc.C.StateTracker()
 		}
 		lines := applyNetEvent(n, e)
+		if e.Kind == "toggle" && st != nil {
+			tc.C.DisableStateTracking()
+			for _, l := range lines {
+				conn.SendLine(l)
+				history = append(history, "<tracking off> "+l)
+			}
+			if !tc.syncOut(stallTimeout()) {
+				return violationf("C13", "event %d: client stopped answering while tracking was off", ei)
+			}
+			pos = len(conn.Written())
+			tc.C.EnableStateTracking()
+			st = tc.C.StateTracker()
+			history = append(history, "<tracking on again>")
+			lines = nil
+			if d := expectedTrackerDiff(st, n, universe, "Real Name"); d != "" {
+				return &Violation{Property: "C13", Msg: fmt.Sprintf("after event %d (tracking switched off and on again on no channel): %s", ei, d), Detail: map[string]interface{}{"last_lines": history, "tracker": st.String()}}
+			}
+		}
 		if e.Kind == "reconnect" {
 			// the same client disconnects and registers again: the tracker must start from the client alone
 			done := make(chan struct{})
